@@ -48,7 +48,7 @@ def main():
     native = e3.Native('c20', wrapper, REPO_SRCS, bdir, list(SIGS.values()))
     chk.extra['ir'] = info
     NP, NV = (4, 3) if quick else (6, 4)
-    chk.bounds.append('E3: (i) every history of <= %d MemoryPool operations {allocate, increase, release} over 3 slots with symbolic operation codes; (ii) every history of <= %d DenseVector lifetime operations {construct, clone(mode), clear, move, range view, write, convert} with symbolic operation codes and swept operand slots / clone modes; (iii) every history of <= 3 (thorough 4) SparseMatrixCSR / SparseLayout operations {construct, share layout, move-construct layout, clone, clear, move}; at the end all containers are destroyed' % (NP, NV))
+    chk.bounds.append('E3: (i) every history of <= %d MemoryPool operations {allocate, increase, release} over 3 slots with symbolic operation codes; (ii) every history of <= %d DenseVector lifetime operations {construct, clone(mode), clear, move, range view, write, convert} with symbolic operation codes and swept operand slots / clone modes; (iii) every history of <= 3 (thorough 4) SparseMatrixCSR / SparseLayout operations {construct, share layout, move-construct layout, move-assign layout, clone, clear, move}; at the end all containers are destroyed' % (NP, NV))
     chk.assume('std::map<void*,MemoryInfo> of the real MemoryPool is executed from libstdc++ header code; its four out-of-line red-black-tree primitives are modelled as unbalanced BST operations (ir/rbtree.py)',
                'address model: heap blocks are ordered by allocation order (one of the orders a real allocator can produce)', 'malloc never fails')
     jobs = []
@@ -75,7 +75,7 @@ def main():
     for nops in range(1, (3 if quick else 4) + 1):
         for mode in ((2, 0) if quick else (0, 1, 2, 3, 4)):
             ops = [z3.BitVec('op%d' % k, 64) for k in range(nops)]; m = [(mode + k) % 5 for k in range(nops)]
-            base = [z3.ULT(o, 8) for o in ops] + ([ops[0] == 0] if nops >= 2 else [])
+            base = [z3.ULT(o, 9) for o in ops] + ([ops[0] == 0] if nops >= 2 else [])
             jobs.append(('matrix/layout history of %d symbolic operations modes=%s' % (nops, m), 'w_matrix_history', {'nops': nops, 'ops': ops, 'm': m, 'obytes_end': 2}, base, vec_oracle(), {}))
     return e3run.run_jobs(chk, mod, native, jobs, info, quick, SIGS, 'c20',
                           explanation='Partial (stated): bounded histories of lifetime operations are executed symbolically on the real MemoryPool and Container/DenseVector code (own IR executor): the operation codes are symbolic, so every history inside the bound is a path; on every path the executor checks each access for bounds/liveness (use after free, double free, invalid free) and z3 decides that the pool size follows the reference-count model after every step and that the pool is empty once all containers/references are gone (no leak).')
